@@ -3,10 +3,12 @@ package main
 // Property checks: select contracts, discharge, report violations, write evidence.
 
 import (
+	"context"
 	"encoding/json"
 	"go/types"
 	"fmt"
 	"os"
+	"os/exec"
 	"path/filepath"
 	"runtime"
 	"sort"
@@ -259,6 +261,35 @@ func (m *Model) runCheck(prop, tier string, keep bool, timeout int) int {
 		fmt.Printf("VIOLATION property=%s replay=%s no-failing-input-found\n", prop, p)
 		fmt.Printf("  obligation %s [%s] status=%s\n  clause: %s\n", o.Name, o.Kind, o.Status, o.Src)
 	}
+	// a concrete failing input, if the probe corpus has one: small self-contained tests per property with
+	// expectations taken from the property statements (independent of the contracts), run against a scratch
+	// copy of the working tree.  Only consulted after an obligation failed; a failing probe is replayable.
+	if violations > 0 {
+		if p, names := m.runProbes(prop, replayDir); p != "" {
+			fmt.Printf("VIOLATION property=%s replay=%s\n", prop, p)
+			fmt.Printf("  failing input found by replaying the probe corpus against the real code: %s\n", strings.Join(names, ", "))
+		}
+	}
+	// vacuity: a function none of whose returns is reachable under its precondition and assumptions proves nothing
+	{
+		retSmokes, retDead := map[string]int{}, map[string]int{}
+		for _, o := range allObls {
+			if o.Smoke && strings.Contains(o.Name, "#smoke:ret") {
+				retSmokes[o.Func]++
+				if o.Status == "unsat" {
+					retDead[o.Func]++
+				}
+			}
+		}
+		for _, f := range sortedKeys(retSmokes) {
+			if retSmokes[f] > 0 && retDead[f] == retSmokes[f] {
+				violations++
+				o := &Obl{Name: f + "#vacuity:no-reachable-return", Kind: "vacuity", Func: f, Status: "unsat", Src: "every return of the function is unreachable under its contract's assumptions: the proof is vacuous"}
+				p := writeReplay(replayDir, o, "vacuous proof")
+				fmt.Printf("VIOLATION property=%s replay=%s no-failing-input-found\n", prop, p)
+			}
+		}
+	}
 	if total == 0 {
 		fmt.Printf("ERROR: no obligations generated for %s\n", prop)
 		violations++
@@ -464,4 +495,68 @@ func (m *Model) structuralC10() []*Obl {
 	add("package lang#structural:maps-ranged-only-where-order-is-unobservable", "range over a Go map occurs only in NewValue, toGoValueInterval, prettyStringInteral, evalExpr, evalCaseMatch, evalStatement (whose contracts collect+sort keys or build maps)", len(ranges) == 0, strings.Join(ranges, "\n"))
 	add("package lang#structural:no-nondeterminism-source", "package lang starts no goroutine and calls nothing in time, math/rand, crypto/rand, os, runtime, reflect, unsafe, sync", len(calls) == 0, strings.Join(calls, "\n"))
 	return out
+}
+
+// runProbes copies the working tree's sources into a scratch directory, adds the probe tests of the
+// property (/verif/probes/<prop>*_probe_test.go) and runs them.  Returns the replay file and the failing
+// test names, or "" when every probe passes (or nothing could be run).
+func (m *Model) runProbes(prop, replayDir string) (string, []string) {
+	probes, _ := filepath.Glob(filepath.Join(toolRoot(), "probes", prop+"*_probe_test.go"))
+	if len(probes) == 0 {
+		return "", nil
+	}
+	tmp, err := os.MkdirTemp("", "govc-probe")
+	if err != nil {
+		return "", nil
+	}
+	defer os.RemoveAll(tmp)
+	for _, f := range []string{"go.mod", "go.sum", "jqawk.go"} {
+		if data, err := os.ReadFile(filepath.Join(m.repo, f)); err == nil {
+			os.WriteFile(filepath.Join(tmp, f), data, 0o644)
+		}
+	}
+	for _, d := range []string{"src", "cli"} {
+		os.MkdirAll(filepath.Join(tmp, d), 0o755)
+		ents, _ := os.ReadDir(filepath.Join(m.repo, d))
+		for _, en := range ents {
+			if strings.HasSuffix(en.Name(), ".go") {
+				if data, err := os.ReadFile(filepath.Join(m.repo, d, en.Name())); err == nil {
+					os.WriteFile(filepath.Join(tmp, d, en.Name()), data, 0o644)
+				}
+			}
+		}
+	}
+	for _, f := range probes {
+		if data, err := os.ReadFile(f); err == nil {
+			os.WriteFile(filepath.Join(tmp, filepath.Base(f)), data, 0o644)
+		}
+	}
+	ctx, cancel := context.WithTimeout(context.Background(), 120*time.Second)
+	defer cancel()
+	cmd := exec.CommandContext(ctx, "go", "test", "-vet=off", "-count=1", "-timeout", "90s", "-v", ".")
+	cmd.Dir = tmp
+	cmd.Env = append(os.Environ(), "GOFLAGS=-mod=mod", "GOPROXY=off", "GOSUMDB=off", "GOTOOLCHAIN=local")
+	out, _ := cmd.CombinedOutput()
+	var failing []string
+	for _, l := range strings.Split(string(out), "\n") {
+		l = strings.TrimSpace(l)
+		if strings.HasPrefix(l, "--- FAIL: ") {
+			name := strings.Fields(strings.TrimPrefix(l, "--- FAIL: "))[0]
+			if !strings.Contains(name, "/") {
+				failing = append(failing, name)
+			}
+		}
+	}
+	if len(failing) == 0 {
+		return "", nil
+	}
+	p := filepath.Join(replayDir, "failing-input.replay.txt")
+	var sb strings.Builder
+	fmt.Fprintf(&sb, "property %s: a concrete failing input for the violated obligations (see the other replay files in this directory)\n", prop)
+	fmt.Fprintf(&sb, "failing probe tests: %s\n", strings.Join(failing, ", "))
+	fmt.Fprintf(&sb, "probe sources: %s\n", strings.Join(probes, " "))
+	fmt.Fprintf(&sb, "re-run: T=$(mktemp -d) && cp -r %s/go.mod %s/go.sum %s/jqawk.go %s/src %s/cli $T/ && cp %s $T/ && (cd $T && GOFLAGS=-mod=mod GOPROXY=off GOSUMDB=off go test -vet=off -count=1 -run '%s' -v .); rm -rf $T\n", m.repo, m.repo, m.repo, m.repo, m.repo, strings.Join(probes, " "), strings.Join(failing, "|"))
+	fmt.Fprintf(&sb, "\noutput of the failing run:\n%s\n", truncate(string(out), 20000))
+	os.WriteFile(p, []byte(sb.String()), 0o644)
+	return p, failing
 }
